@@ -187,31 +187,36 @@ def w_full(kind: int, name: int, layout: int, sort: int, frm: int, parent_remove
 
 
 # ------------------------------------------------------------------ K: path half
-def k_parent_path(parent: str, volume: str) -> str:
+def k_parent_path(volume: str, rest: str) -> str:
     """
-    pre: len(parent) <= 4 and len(volume) <= 3
-    pre: parent.startswith('/') and volume.startswith('/')
-    pre: '//' not in parent and '//' not in volume
-    pre: not (len(volume) > 1 and volume.endswith('/')) and not (len(parent) > 1 and parent.endswith('/'))
+    pre: 1 <= len(volume) <= 3 and len(rest) <= 3
+    pre: volume[0] == '/' and (len(volume) == 1 or volume[-1] != '/')
+    pre: not rest.startswith('/') and not rest.endswith('/')
     post: _ == ''
     """
-    # parent: a realpath (absolute, normalised); volume: a mount point (absolute, normalised)
+    # volume: a mount point; parent: a directory inside it (= volume, or volume + '/' + rest);
+    # the write side turns parent into a Path prefix, the read side joins it back onto the volume
     rt.begin()
     import posixpath
     from trashcli.put.original_location import OriginalLocation
     from trashcli.put.core.path_maker_type import PathMakerType
-    inside = (parent == volume) or parent.startswith(volume + '/') or volume == '/'
+    if rest == '':
+        parent = volume
+    elif volume == '/':
+        parent = '/' + rest
+    else:
+        parent = volume + '/' + rest
     rel = OriginalLocation._calc_parent_path(parent, volume, PathMakerType.RelativePaths)
     ab = OriginalLocation._calc_parent_path(parent, volume, PathMakerType.AbsolutePaths)
     if ab != parent:
         return rt.fail('C02:abs-parent-changed', '_calc_parent_path(%r, AbsolutePaths) = %r' % (parent, ab))
-    if inside:
-        # read side: os.path.join(volume, os.path.join(rel, name)) must designate parent/name
-        back = posixpath.join(volume, posixpath.join(rel, 'n'))
-        want = posixpath.join(parent, 'n')
-        if posixpath.normpath(back) != posixpath.normpath(want):
-            return rt.fail('C02:relative-parent-does-not-join-back',
-                           'parent=%r volume=%r rel=%r joins back to %r' % (parent, volume, rel, back))
+    if rel != rest:
+        return rt.fail('C02:relative-parent-wrong', 'parent=%r volume=%r: relative parent %r, expected %r' % (parent, volume, rel, rest))
+    # read side: os.path.join(volume, os.path.join(rel, name)) must designate parent/name
+    back = posixpath.join(volume, posixpath.join(rel, 'n'))
+    want = posixpath.join(parent, 'n')
+    if back != want:
+        return rt.fail('C02:relative-parent-does-not-join-back', 'parent=%r volume=%r rel=%r joins back to %r' % (parent, volume, rel, back))
     return rt.ok()
 
 
@@ -220,7 +225,7 @@ def obligations(tier):
     obs = [
         CH('K_parent_path_roundtrip', MOD, 'k_parent_path', timeout=400, engine='K', regime='traced',
            encodes=['OriginalLocation._calc_parent_path', 'posixpath.join (read side of parse_original_location)'],
-           bounds='parent: absolute normalised str len<=4; volume: absolute normalised str len<=3'),
+           bounds='volume: any mount-point-shaped str len<=3; parent = volume or volume/rest with rest any str len<=3 without leading/trailing slash'),
         CH('W_kind_name_layout_sort', MOD, 'w_main', timeout=900, partitions=list(range(6)), engine='W',
            regime='selector', encodes=enc, stubs=K.STUBS,
            bounds='6 kinds x 16 names x 4 layouts x 4 sort modes; restore from the original directory'),
